@@ -1,5 +1,6 @@
 import GopatchModel.FileM
 import GopatchModel.Spec.Assoc
+import GopatchModel.Spec.DotsKeys
 namespace Gopatch.C04
 open Gopatch
 
@@ -239,6 +240,36 @@ theorem context_line_elision_associated (c : Change) (k : Nat)
 when the latter does not come after it in the patch -/
 theorem single_elision_associated (l r : Nat) (h : l ≤ r) : (connectDots [l] [r]).lookup r = some l := by
   simp [connectDots, sortAsc, insertAsc, connectDotsGo, nearestBefore, nbStep, h]
+
+/-- **The run an elision stood for is found under its key when the match is complete** — provided no later
+elision of the list has the same key (elisions are told apart by their patch position).  With `dots_reproduced`
+and `context_line_elision_associated`: what a context-line `...` elided reappears at its place. -/
+theorem elision_run_kept (mt : Meta) (e : String) (p : V) (k : Nat) (ps gs : List V) (d d' : Data)
+    (hk : dotsKeyOf e p = some k) (hfresh : k ∉ collectSeq e ps) (h : matchSeq mt e (p :: ps) gs d = some d') :
+    ∃ run rest, run ++ rest = gs ∧ d'.lookDots k = some run ∧
+      ∀ run' rest', run' ++ rest' = gs → run'.length < run.length → matchSeq mt e ps rest' (d.pushDots k run') = none := by
+  obtain ⟨run, rest, hcat, hm, hshort⟩ := first_dots_shortest mt e p k ps gs d d' hk h
+  refine ⟨run, rest, hcat, ?_, hshort⟩
+  rw [matchSeq_dots mt e ps rest _ d' hm k hfresh]
+  exact run_recorded d k run
+
+/-- the keys of the elisions of one side of a change are pairwise different (what the engine relies on; evaluated
+by the driver on every case as `keysdistinct`) -/
+def keysDistinct (c : Change) : Bool :=
+  let ks := collectDots (sidePattern c c.minus)
+  ks.all (fun k => ks.count k == 1)
+
+/-- when two elisions share a key the earlier one's run is lost (the repaired defect F24: the implied leading
+elision of a statement patch had the position of a flush-left `...` on the first line) -/
+def stmtOf (name : String) : V :=
+  .iface "ast.Stmt" (.ptr "ast.ExprStmt" 0 [.iface "ast.Expr" (.ptr "ast.Ident" 0 [.pos true 0, .str name, .nilP "ast.Object"])])
+
+theorem shared_key_loses_run :
+    (matchSeq [] "ast.Stmt" [mkDotsStmt 7, mkDotsStmt 7, stmtOf "foo"] [stmtOf "a", stmtOf "b", stmtOf "foo"] Data.empty).map
+      (fun d => (d.lookDots 7).map List.length) = some (some 2) ∧
+    (matchSeq [] "ast.Stmt" [mkDotsStmt 6, mkDotsStmt 7, stmtOf "foo"] [stmtOf "a", stmtOf "b", stmtOf "foo"] Data.empty).map
+      (fun d => ((d.lookDots 6).map List.length, (d.lookDots 7).map List.length)) = some (some 0, some 2) := by
+  constructor <;> decide +kernel
 
 /-! ### the behaviour before the `fix:` commit, refuted -/
 
